@@ -17,3 +17,36 @@ claim("C04", "DESIGN.md 5/C04", "Lean 4 theorem over the executable model + diff
       "result cell of the model's exec lies in [-1,1] (no hypotheses). The model's 14 cases are tied to the execute bodies by running both on "
       "the same generated cases (parameters deliberately outside the fuzzy range) and every implementation result is range-checked.",
       TB)
+
+claim("C03", "DESIGN.md 5/C03", "Lean 4 non-interference theorem over the executable model + differential correspondence + mask/payload-twin oracles",
+      "Theorem MPilot.C03.payload_irrelevant: for all 31 data commands, any two input lists that look the same (element type, shape, "
+      "missing cells, non-missing values) give the same error or visibly equal results, whatever is stored beneath missing cells - "
+      "whole-array statistics included. The mask-superset / undefined-only clauses are decided on the implementation by oracle and by "
+      "the correspondence with the model (a Lean mask theorem for all commands is not yet proved: partial).",
+      TB)
+claim("C05", "DESIGN.md 5/C05", "Lean 4 theorem (shape) + differential correspondence + permutation/reshape/layout twin oracles",
+      "Theorem MPilot.C05.shape_preserved: every data command that succeeds returns the shape of its first input, any rank. Cell independence "
+      "(common permutation / reshape / memory layout of the inputs) is decided on the implementation by twin runs and by the correspondence on rank 1-3 "
+      "shapes; permutation invariance in the *inputs list* is proved in C06/C07. Equivariance under cell permutations is not yet a theorem: partial.",
+      TB)
+claim("C06", "DESIGN.md 5/C06", "Lean 4 theorems (definitions, algebra, order invariance) + exhaustive-lattice correspondence + reference/algebra oracles",
+      "Theorems in MPilot.C06: Or/And cell = max/min of the column; Not negates, is an involution; De Morgan; And <= Union <= Or; xor stays in range; "
+      "selected union with k = all is the mean; Or, And, Union, XOr, SelectedUnion give the same outcome for every input order (all lists, all sizes). "
+      "All lattice tuples for <= 3 inputs are enumerated against model and exact reference on every run.",
+      TB)
+claim("C07", "DESIGN.md 5/C07", "Lean 4 theorems (cell definitions, commutativity incl. failure, error order) + differential correspondence + reference oracles",
+      "Theorems in MPilot.C07: Sum/Multiply/Minimum/Maximum cell definitions with mask = union; AMinusB/ADividedByB cells; division by zero masks and never "
+      "fails; Sum, Multiply, Minimum, Maximum, Mean give the same error or visibly equal results for every permutation of their inputs; EmptyInputs, "
+      "MixedArrayShapes, MismatchedWeights raised in the bodies' order. Weighted commands' order invariance is decided by oracle/correspondence only: partial.",
+      TB)
+claim("C08", "DESIGN.md 5/C08", "Lean 4 theorems (threshold map, inverse, monotonicity, lookup, curve order independence, counterpart equality) + correspondence + mapping oracles",
+      "Theorems in MPilot.C08: CvtToFuzzy maps true->+1, false->-1, is the line between and clamped outside, monotone/antitone; CvtFromFuzzy inverts it; "
+      "CvtToBinary threshold test; category lookup hit/miss; sorted control points are independent of listing order (curve_perm_invariant); curve flat below the first point; "
+      "each CvtToFuzzy variant is definitionally the clamp of its Normalize counterpart. Interpolation between interior control points and the z-score/mean-to-mid statistics "
+      "are tied by correspondence and reference oracles only: partial.",
+      TB + "z-score commands depend on sqrt: model parameter, driver instance = 20-digit rational root; cases within 1e-9 of a data-derived discontinuity are skipped and counted.")
+claim("C09", "DESIGN.md 5/C09", "Lean 4 heap-model theorems (execH_preserves, execH_refines) + before/after snapshots of every live array around every real execute",
+      "Heap model execH makes aliasing (single-input Minimum/Maximum/FuzzyOr/FuzzyAnd return the input object) and the in-place clamp explicit. Theorem execH_preserves: one "
+      "step leaves every existing object visibly unchanged provided fuzzy inputs are fuzzy values (C04); execH_refines: the result object is exec's result. "
+      "Which bodies allocate fresh arrays is a modelling fact validated by the correspondence (aliasing facts + snapshots of inputs after each execute, sequences of up to 8 consumers).",
+      TB)
